@@ -31,12 +31,36 @@ let print_line (l : z list) : unit =
   print_string (String.concat " " (List.map (fun x -> string_of_int (int_of_z x)) l));
   print_newline ()
 
+let rec n_of_z (x : z) : n = match x with Z0 -> N0 | Zpos p -> Npos p | Zneg _ -> N0
+let z_of_n (x : n) : z = match x with N0 -> Z0 | Npos p -> Zpos p
+
+(* A block whose first line is "-100" holds codec cases instead of a script:
+   1 id gen -> marshal_bin bytes;  2 b.. -> unmarshal_bin (1 id gen | 0);
+   3 id gen -> marshal_json bytes; 4 b.. -> unmarshal_json (1 id gen | 0);  5 n -> capPow2 *)
+let codec_case (l : z list) : z list =
+  match l with
+  | c :: rest ->
+    (match int_of_z c, rest with
+     | 1, [i; g] -> List.map z_of_n (marshal_bin (n_of_z i) (n_of_z g))
+     | 2, bs -> (match unmarshal_bin (List.map n_of_z bs) with
+                 | Some (i, g) -> [z_of_int 1; z_of_n i; z_of_n g] | None -> [Z0])
+     | 3, [i; g] -> List.map z_of_n (marshal_json (n_of_z i) (n_of_z g))
+     | 4, bs -> (match unmarshal_json (List.map n_of_z bs) with
+                 | Some (i, g) -> [z_of_int 1; z_of_n i; z_of_n g] | None -> [Z0])
+     | 5, [x] -> [z_of_n (capPow2N (n_of_z x))]
+     | _, _ -> [z_of_int (-1)])
+  | [] -> [z_of_int (-1)]
+
 let flush_script (acc : z list list) : unit =
   let lines = List.rev acc in
-  if lines <> [] then begin
+  match lines with
+  | [] -> ()
+  | [h] :: cases when int_of_z h = -100 ->
+    List.iter (fun c -> print_line (codec_case c)) cases;
+    print_string "#\n"
+  | _ ->
     List.iter print_line (run_script lines);
     print_string "#\n"
-  end
 
 let () =
   let acc = ref [] in
